@@ -148,6 +148,8 @@ class Normal(BaseProposal):
             self._std = cov**0.5
         else:
             self._cov = cov
+        # the cached distribution used by logpdf has to follow
+        self._update_proposal()
 
     @property
     def std(self):
@@ -171,6 +173,8 @@ class Normal(BaseProposal):
         std = self._ensurearray(std)
         self._isdiagonal = True
         self._std = std
+        # the cached distribution used by logpdf has to follow
+        self._update_proposal()
 
     @property
     def state(self):
@@ -296,6 +300,11 @@ class AdaptiveSupport(BaseAdaptiveSupport):
         # save the initial proposal parameters
         self._initial_proposal_params = {'_std': initial_std.copy()}
 
+    def _reset_adaptation(self):
+        super()._reset_adaptation()
+        # the cached distribution used by logpdf has to follow the restored
+        # scale
+        self._update_proposal()
 
     @property
     def prior_widths(self):
@@ -478,6 +487,11 @@ class SSAdaptiveSupport(BaseAdaptiveSupport):
 
         self._initial_proposal_params.update({'n_accepted': 0})
 
+    def _reset_adaptation(self):
+        super()._reset_adaptation()
+        # the cached distribution used by logpdf has to follow the restored
+        # scale
+        self._update_proposal()
 
     def _update(self, chain):
         """Updates the adaptation based on whether the last jump was accepted.
@@ -669,6 +683,12 @@ class ATAdaptiveSupport(BaseAdaptiveSupport):
                 self.target_rate = 0.48
         else:
             self.target_rate = target_rate
+        self._update_proposal()
+
+    def _reset_adaptation(self):
+        super()._reset_adaptation()
+        # the cached distribution used by logpdf has to follow the restored
+        # scale
         self._update_proposal()
 
     def _componentwise_scaling(self, chain, dk):
